@@ -1,6 +1,10 @@
 import PfModel.DriverVal
 import PfModel.Model.Lazy
 import PfModel.Model.PipeCache
+import PfModel.Lemmas.LazySimRun
+import PfModel.DriverC18Refuse
+import PfModel.DriverC18Cont
+import PfModel.DriverC18Multi
 /-! Driver for C18 (`lazy.run`): a session of lazy calls, `evaluate()`s and `construct_dag()` blocks on one pipeline. -/
 open Lean PF PF.Drv PF.Pipe PF.Lazy
 
@@ -39,8 +43,10 @@ def putGraph (g : TG) : Json :=
   jObj [("nodes", jList jNat g.gnodes), ("edges", jList (fun (a, b) => jArr [jNat a, jNat b]) g.edges),
         ("cache", jNat g.cache.length)]
 
-/-- one step of a session; `handles` are the objects the calls returned so far -/
-def step (fs : List Func) (s : LSt) (handles : List (Option LArg)) (op : Json) : R (Json × LSt × List (Option LArg)) := do
+/-- one step of a session; `handles` are the objects the calls returned so far, each with the segment of the node table its request
+    created (`C18_calls_eq_eager_later` speaks about the invoked nodes of that segment) -/
+def step (fs : List Func) (s : LSt) (handles : List (Option (LArg × Nat × Nat))) (op : Json) :
+    R (Json × LSt × List (Option (LArg × Nat × Nat))) := do
   match ← strF op "op" with
   | "enter" => return (jObj [("ok", jBool true)], enterDag s, handles)
   | "exit" =>
@@ -58,19 +64,25 @@ def step (fs : List Func) (s : LSt) (handles : List (Option LArg)) (op : Json) :
         | .name n => match compose fs kw (fuelFor fs) n with | .ok v => putVal v | .error _ => Json.null
         | .whole _ => Json.null
       let eager : Json := match runTop fs kw req with | .ok o => jObj [("value", putVal o.value), ("calls", jList jStr o.calls)] | .error e => putErr e
+      -- `fresh`: the hypothesis `entries s = []` of `C18_calls_eq_eager` (the request can find nothing in a cache)
       return (jObj [("ret", putLArg a), ("den", jOpt putVal (den s1.nodes a)), ("spec", spec), ("eager", eager),
-                    ("log", jList jStr (callNames s1.nodes s1.ev.log))], s1, handles ++ [some a])
+                    ("log", jList jStr (callNames s1.nodes s1.ev.log)), ("fresh", jBool (entries s).isEmpty),
+                    ("seg", jArr [jNat s.nodes.length, jNat s1.nodes.length]),
+                    ("created", jList jStr (cnames (s1.nodes.drop s.nodes.length)))], s1, handles ++ [some (a, s.nodes.length, s1.nodes.length)])
   | "eval" =>
     let h ← natF op "h"
     match handles[h]? with
-    | some (some a) =>
+    | some (some (a, lo, hi)) =>
       match evaluate a s with
       | .error e => return (putEErr e, s, handles)
-      | .ok (v, s1) => return (jObj [("value", putVal v), ("log", jList jStr (callNames s1.nodes s1.ev.log))], s1, handles)
+      | .ok (v, s1) =>
+        return (jObj [("value", putVal v), ("log", jList jStr (callNames s1.nodes s1.ev.log)),
+                      ("new", jList jStr (callNames s1.nodes (s1.ev.log.drop s.ev.log.length))),
+                      ("seg_invoked", jList jStr (callNames s1.nodes (s1.ev.log.filter fun i => lo ≤ i && i < hi)))], s1, handles)
     | _ => .error s!"eval of handle {h}: no such object"
   | o => .error s!"unknown op {o}"
 
-def session (fs : List Func) : List Json → LSt → List (Option LArg) → List Json → R (List Json × LSt)
+def session (fs : List Func) : List Json → LSt → List (Option (LArg × Nat × Nat)) → List Json → R (List Json × LSt)
   | [], s, _, acc => .ok (acc.reverse, s)
   | op :: ops, s, hs, acc => do
     let (r, s1, hs1) ← step fs s hs op
@@ -91,6 +103,9 @@ def handle (m : String) (a : Json) : R Json := do
     let wf := PipeCache.rankedB fs && PipeCache.uniqueOutB fs && PipeCache.consistentDefaultsB PipeCache.encVal fs
     return jObj [("ops", jArr rs), ("table", jList putNode s.nodes), ("wf", jBool wf), ("roots_ok", jBool (PipeCache.rootsAgreeB fs)),
                  ("own", jOpt (fun c => jNat c.length) s.own)]
+  | "rsession" => PF.DrvC18Refuse.handle a
+  | "csession" => PF.DrvC18Cont.handle a
+  | "msession" => PF.DrvC18Multi.handle a
   | _ => .error s!"unknown entry {m}"
 
 def main : IO Unit := loop handle
